@@ -337,12 +337,14 @@ class Bed:
                 if resp not in rec.halves and not cut_here:
                     self.add_violation('no_server_half', {'kind': rec.kind}, f'{r.op}: client got a channel but no server-side channel with destination CID {ch.source_cid:#x} was delivered to the server handler')
             if status == 'error' and not cut_here:
-                blk = self._blocker(r)
+                blk = self._blocker(r, val)
                 if blk:
-                    sig = {'error': val, 'cause': 'stale_le_coc_entry_at_responder', 'stale_closed_by': blk.split('/')[1]}
+                    sig = {'error': val, 'cause': blk[0]}
+                    if blk[1]:
+                        sig['stale_closed_by'] = blk[1]
                 else:
                     sig = {'kind': r.op[1], 'error': val, 'when': self._when(r)}
-                self.add_violation('open_failed', sig, f'{r.op} raised {val} ({self._ctx()}){" — responder still holds a table entry of closed channel " + str(blk) if blk else ""}')
+                self.add_violation('open_failed', sig, f'{r.op} raised {val} ({self._ctx()}){" — " + blk[0] + (" (channel ended by " + blk[1] + ")" if blk[1] else "") if blk else ""}')
             if status == 'ok' and len(chans) != len(r.rids):
                 self.add_violation('open_count', {'kind': r.op[1]}, f'{r.op}: {len(chans)} channels returned, {len(r.rids)} requested')
             # server-side channels nobody claims become server-only records in collect_orphans()
@@ -393,24 +395,21 @@ class Bed:
     def _ctx(self):
         return f'cut={self.cut}' if self.cut else 'no fault'
 
-    def _blocker(self, r):
-        """Diagnosis only: which closed channel's table entry at the responder carries the CID the
-        initiator would allocate now."""
-        try:
-            L, side = r.link, r.side
-            resp = OTHER[side]
-            mine = self.manager(L, side).channels.get(self.conn[L][side].handle) or {}
-            cid = self.l2cap.ChannelManager.find_free_le_cid(mine)
-            tab = self.manager(L, resp).le_coc_channels.get(self.conn[L][resp].handle) or {}
-            obj = tab.get(cid)
-            if obj is None:
-                return None
-            for rec in list(self.recs.values()) + self.orphans:
-                for s, h in rec.halves.items():
-                    if h.obj is obj and not h.open:
-                        return f'{rec.kind}/{h.closed_by}'
-        except Exception:
+    def _blocker(self, r, err):
+        """Diagnosis only (it selects the signature, not the verdict): when the responder refused the open
+        because the source CID is 'already allocated', say which entry of its LE table is to blame —
+        one of a channel that is no longer open, or one filed under the wrong key."""
+        if 'SOURCE_CID_ALREADY_ALLOCATED' not in err:
             return None
+        L, resp = r.link, OTHER[r.side]
+        tab = self.manager(L, resp).le_coc_channels.get(self.conn[L][resp].handle) or {}
+        open_objs = {id(h.obj) for rec in list(self.recs.values()) + self.orphans for h in rec.halves.values() if h.open}
+        for key in sorted(tab):
+            if id(tab[key]) not in open_objs:
+                return ('stale_le_coc_entry_at_responder', self._describe(tab[key])[2])
+        for key in sorted(tab):
+            if key != tab[key].destination_cid:
+                return ('misfiled_le_coc_entry_at_responder', None)
         return None
 
     # ------------------------------------------------------------- the oracle
